@@ -118,12 +118,53 @@ static unsigned ref_parse_tags(const unsigned char *d, struct ref_tag *tags)
 }
 
 
+#if FEAT_CSUM
+/*
+ * Checksummed journals.  REF_CSUM(k) is "the checksum of journal block k" (the harness's T-stub of the crc primitive
+ * returns the same symbolic word), so validity of every stored checksum is a free predicate per block.
+ *   v1 (COMPAT_CHECKSUM): a running value, seeded with ~0 at the start of every transaction, is folded over each
+ *      descriptor block and then each of its data blocks in log order (revoke blocks are not covered); the commit block
+ *      is valid iff (+12 type == 1, +13 size == 4, +16 == running value) or all three are zero (checksum unused).
+ *   v2/v3: descriptor and revoke blocks carry their checksum in the last 4 bytes, commit blocks at +16.
+ * A commit block whose checksum is wrong but whose commit time (+48, 64 bit) is older than the previous transaction's is
+ * a stale block of an older log: the log simply ends there.  Otherwise the transaction is the end of the log and,
+ * without async_commit, is reported as a failed commit; with async_commit (v1) the walk goes on and a later commit
+ * block proves corruption (failed commit = the transaction with the bad checksum).  v2/v3: a descriptor / revoke block
+ * with a wrong checksum makes the next commit block decisive: newer commit time = corruption (recovery fails), older =
+ * stale (log ends).
+ */
+static __u32 ref_fold(__u32 crc, __u32 w) { return ((crc << 1) | (crc >> 31)) ^ w; }	/* the T-stub's fold, restated */
+static __u32 ref_blk_csum(unsigned pos)
+{
+	unsigned p;
+	__u32 r = 0;
+	for (p = 0; p < NJ; p++)
+		if (p == pos)
+			r = REF_CSUM(p);
+	return r;
+}
+static unsigned long long ref_be64(const unsigned char *p)
+{
+	return ((unsigned long long) ref_be32(p) << 32) | ref_be32(p + 4);
+}
+#endif
+static unsigned ref_end_ord;		/* transactions 0 .. ref_end_ord-1 are to be applied */
+static int ref_scan_error;		/* the scan itself must fail (corruption proven) */
+static int ref_failed_commit;		/* a transaction that looks committed failed its checksum */
+static unsigned ref_failed_ord;
+
 /* find the end of the log */
 static void ref_walk(__u32 s_sequence)
 {
 	unsigned pos = REF_START, ord = 0, n;
 	static unsigned char d[B];
 	static struct ref_tag tags[REF_MAXT + 1];
+#if FEAT_CSUM
+	int end_set = 0, need_time = 0;
+	unsigned long long last_time = 0;
+	__u32 crc = 0xffffffffu;
+	unsigned t;
+#endif
 
 	for (n = 0; n < REF_MAXWALK; n++) {
 		__u32 type;
@@ -139,6 +180,53 @@ static void ref_walk(__u32 s_sequence)
 			ref_terminated = 1;
 			continue;
 		}
+#if FEAT_CSUM
+		if (type == 2) {
+			unsigned long long ctime = ref_be64(d + 48);
+			int bad = 0;
+#if FEAT_CSUM >= 2
+			if (need_time) {
+				if (ctime >= last_time)
+					ref_scan_error = 1;
+				ref_terminated = 1;
+				continue;
+			}
+			if (ref_be32(d + 16) != ref_blk_csum(pos))
+				bad = 1;
+#else
+			if (end_set) {
+				ref_failed_commit = 1;
+				ref_failed_ord = ref_end_ord;
+				ref_terminated = 1;
+				continue;
+			}
+			if (!((d[12] == 1 && d[13] == 4 && ref_be32(d + 16) == crc) ||
+			      (d[12] == 0 && d[13] == 0 && ref_be32(d + 16) == 0)))
+				bad = 1;
+			else
+				crc = 0xffffffffu;
+#endif
+			if (bad) {
+				if (ctime < last_time) {
+					ref_terminated = 1;
+					continue;
+				}
+				end_set = 1;
+				ref_end_ord = ord;
+#if !FEAT_ASYNC
+				ref_failed_commit = 1;
+				ref_failed_ord = ord;
+				ref_terminated = 1;
+				continue;
+#endif
+			}
+			last_time = ctime;
+		}
+#if FEAT_CSUM >= 2
+		if ((type == 1 || type == 5) && ref_be32(d + B - 4) != ref_blk_csum(pos))
+			need_time = 1;
+#endif
+#endif
 		ref_steps[n].pos = pos;
 		ref_steps[n].type = (unsigned char) type;
 		ref_steps[n].ord = ord;
@@ -150,6 +238,14 @@ static void ref_walk(__u32 s_sequence)
 			/* BOUND: a descriptor never claims the whole log (it needs room for itself and a commit block) */
 			if (nt + 1 > REF_LAST - REF_FIRST)
 				ref_bound_ok = 0;
+#if FEAT_CSUM == 1
+			if (!end_set) {
+				crc = ref_fold(crc, ref_blk_csum(pos));
+				for (t = 0; t < REF_MAXT; t++)
+					if (t < nt)
+						crc = ref_fold(crc, ref_blk_csum(ref_adv(pos, 1 + t)));
+			}
+#endif
 			pos = ref_adv(pos, 1 + nt);
 		} else if (type == 2) {
 			ord++;
@@ -160,7 +256,15 @@ static void ref_walk(__u32 s_sequence)
 			pos = ref_adv(pos, 1);
 		}
 	}
+#if FEAT_CSUM
+	if (!end_set)
+		ref_end_ord = ord;
+#else
+	ref_end_ord = ord;
+#endif
 }
+/* does step n belong to a transaction that is to be applied? */
+#define REF_COMMITTED(n) ((n) < ref_nsteps && ref_steps[n].ord < ref_end_ord)
 
 /* collect the revoke records of committed transactions: block -> ordinal of the latest transaction revoking it */
 static void ref_collect_revokes(void)
@@ -171,7 +275,7 @@ static void ref_collect_revokes(void)
 	for (n = 0; n < REF_MAXWALK; n++) {
 		__u32 used;
 		unsigned cnt = 0;
-		if (n >= ref_ncommitted_steps || ref_steps[n].type != 5 || ref_bad_revoke)
+		if (!REF_COMMITTED(n) || ref_steps[n].type != 5 || ref_bad_revoke)
 			continue;
 		ref_load(ref_steps[n].pos, d);
 		used = ref_be32(d + 12);
@@ -242,7 +346,7 @@ static void ref_replay(void)
 
 	for (n = 0; n < REF_MAXWALK; n++) {
 		unsigned nt;
-		if (n >= ref_ncommitted_steps || ref_steps[n].type != 1)
+		if (!REF_COMMITTED(n) || ref_steps[n].type != 1)
 			continue;
 		ref_load(ref_steps[n].pos, d);
 		nt = ref_parse_tags(d, tags);
